@@ -374,13 +374,14 @@ def memcfg_word_count(rule: str, words: list[int], first: Optional[SpecReg], tot
 # value alphabet
 
 
-def alphabet(width: int) -> list[int]:
-    """{0, 1, max, max-1, 0x55.., 0xAA..} cut to the width, duplicates removed, order kept."""
+def alphabet(width: int, thin: bool = False) -> list[int]:
+    """{0, 1, max, max-1, 0x55.., 0xAA..} cut to the width, duplicates removed, order kept;
+    thin (quick tier): {0, 1, max, 0x55..}."""
     m = (1 << width) - 1
     p5 = int("55" * ((width + 7) // 8), 16) & m
     pa = int("AA" * ((width + 7) // 8), 16) & m
     out: list[int] = []
-    for v in (0, 1, m, m - 1, p5, pa):
+    for v in ((0, 1, m, p5) if thin else (0, 1, m, m - 1, p5, pa)):
         if 0 <= v <= m and v not in out:
             out.append(v)
     return out
@@ -398,7 +399,7 @@ def selftest() -> None:
     assert inverse_expected(0x1234, f) == 0xEDCB
     f8 = SpecField({"width": 8, "calculated": "INVERSE", "name": "INV"}, 8)
     assert inverse_expected(0xAB05, f8) == 0xFA
-    assert alphabet(1) == [0, 1] and alphabet(3) == [0, 1, 7, 6, 5, 2]
+    assert alphabet(1) == [0, 1] and alphabet(3) == [0, 1, 7, 6, 5, 2] and alphabet(3, thin=True) == [0, 1, 7, 5]
     assert xmcd_crc(b"123456789") == bytes.fromhex("0376E6E7")
     assert xmcd_header((0xC000000C).to_bytes(4, "little")) == {"size": 12, "block_type": 0, "instance": 0, "interface": 0,
                                                               "version": 0, "tag": 0xC}
